@@ -33,29 +33,7 @@ pub fn make_archive(ctx: &mut Ctx, max_len: usize, big: bool, force_writer: Opti
     let max_len = if spec.comp.expensive() { max_len.min(spec.cfg.expected_avg().saturating_mul(24).max(64)) } else { max_len };
     let (sspec, data) = gen::gen_source(&spec.cfg, max_len);
     let source = Arc::new(data);
-    let sched = scen::draw_schedule();
-    let short = scen::draw_short_reads();
-    let (wname, outcome, archive) = match writer {
-        0 => {
-            scen::put_file("src.bin", &source);
-            scen::set_stdin(None);
-            let r = scen::run(&scen::compress_args(&spec, Some("src.bin"), "a.cba", false));
-            ("cli-file", r.outcome, scen::get_file("a.cba").unwrap_or_default())
-        }
-        1 => {
-            scen::set_stdin(Some(source.to_vec()));
-            let r = scen::run(&scen::compress_args(&spec, None, "a.cba", false));
-            scen::set_stdin(None);
-            ("cli-stdin", r.outcome, scen::get_file("a.cba").unwrap_or_default())
-        }
-        _ => {
-            // temporary_file_override is not used: create_archive opens it write-only
-            // (File::create) and then reads it back, which always fails with EBADF -- a
-            // bitar defect outside the listed properties (see DESIGN.md section 6, O1)
-            let r = scen::compress_lib(&spec, source.clone(), None);
-            ("lib", r.outcome, r.archive)
-        }
-    };
+    let (wname, outcome, archive, sched, short) = compress_with(&spec, &source, writer);
     let desc = json!({"writer": wname, "options": spec.json(), "source": sspec.json(), "schedule": sched, "short_read_pct": short});
     if ctx.want_sample {
         ctx.verdict.sample = Some(desc.clone());
@@ -65,6 +43,38 @@ pub fn make_archive(ctx: &mut Ctx, max_len: usize, big: bool, force_writer: Opti
         return None;
     }
     Some(Made { spec, source, archive, writer: wname, desc })
+}
+
+/// Compress `source` with `spec` through writer 0 (CLI, file), 1 (CLI, stdin) or 2 (library)
+/// under a freshly drawn schedule.
+pub fn compress_with(spec: &scen::CompressSpec, source: &Arc<Vec<u8>>, writer: u32) -> (&'static str, Outcome, Vec<u8>, serde_json::Value, u32) {
+    let sched = scen::draw_schedule();
+    let short = scen::draw_short_reads();
+    scen::quiet(|| {
+        let _ = std::fs::remove_file("a.cba");
+    });
+    let (wname, outcome, archive) = match writer {
+        0 => {
+            scen::put_file("src.bin", source);
+            scen::set_stdin(None);
+            let r = scen::run(&scen::compress_args(spec, Some("src.bin"), "a.cba", false));
+            ("cli-file", r.outcome, scen::get_file("a.cba").unwrap_or_default())
+        }
+        1 => {
+            scen::set_stdin(Some(source.to_vec()));
+            let r = scen::run(&scen::compress_args(spec, None, "a.cba", false));
+            scen::set_stdin(None);
+            ("cli-stdin", r.outcome, scen::get_file("a.cba").unwrap_or_default())
+        }
+        _ => {
+            // temporary_file_override is not used: create_archive opens it write-only
+            // (File::create) and then reads it back, which always fails with EBADF -- a
+            // bitar defect outside the listed properties (see DESIGN.md section 6, O1)
+            let r = scen::compress_lib(spec, source.clone(), None);
+            ("lib", r.outcome, r.archive)
+        }
+    };
+    (wname, outcome, archive, sched, short)
 }
 
 pub fn run(ctx: &mut Ctx) {
